@@ -60,10 +60,21 @@ def run(c, a):
     prefix = os.path.join(c.scratch, "fm_subs")
     out3 = json.loads(c.vh(["fm", "exec", hp2, prefix, NCPU], timeout=7200).stdout)
     traces += ["%s.%02d.ndjson" % (prefix, i) for i in range(NCPU)]
+    # G: every ordered pair of queries over a concatenation-closed name alphabet (cache-key separation)
+    gp = c.tlc("FontMapGenPairs", cfg="FontMapGenPairs.cfg", workers=NCPU, timeout=3600, heap="6g")
+    hp3 = os.path.join(c.scratch, "hist_pairs.ndjson")
+    nh3 = extract_histories(gp.out, hp3)
+    if gp.rc != 0 or gp.error or nh3 == 0:
+        raise Undecided("TLC generated no query-pair history:\n" + gp.out[-1500:])
+    c.states += gp.distinct
+    c.transitions += gp.generated
+    prefix = os.path.join(c.scratch, "fm_pairs")
+    out4 = json.loads(c.vh(["fm", "exec", hp3, prefix, NCPU], timeout=7200).stdout)
+    traces += ["%s.%02d.ndjson" % (prefix, i) for i in range(NCPU)]
     prefix = os.path.join(c.scratch, "fm_rand")
     out2 = json.loads(c.vh(["fm", "rand", 40000 if thorough else 3000, 25, prefix, NCPU]).stdout)
     traces += ["%s.%02d.ndjson" % (prefix, i) for i in range(NCPU)]
-    c.extra["generated"] = {"tlc_histories": out["histories"], "tlc_substitution_histories": out3["histories"], "random_histories": out2["histories"]}
+    c.extra["generated"] = {"tlc_histories": out["histories"], "tlc_substitution_histories": out3["histories"], "random_histories": out2["histories"], "tlc_query_pair_histories": out4["histories"]}
     traces = [t for t in traces if os.path.exists(t) and os.path.getsize(t) > 0]
     res = c.validate("FontMapV", traces, timeout=7200, heap="4g")
     for tp, rj, r in res:
